@@ -49,18 +49,27 @@ func init() {
 		ID: "C14",
 		Harnesses: func(tier string) []HarnessSpec {
 			m := tierSel(tier, 6, 12)
-			return []HarnessSpec{
+			hs := []HarnessSpec{
 				{Name: "new-base-case", Pkg: "ringbuffer", Func: "ZZ_C14_New", Params: pm("M", 64)},
 				{Name: "push-step", Pkg: "ringbuffer", Func: "ZZ_C14_PushStep", Params: pm("M", m), Witnesses: []string{"grow", "grow-while-wrapped"}},
 				{Name: "pop-step", Pkg: "ringbuffer", Func: "ZZ_C14_PopStep", Params: pm("M", m)},
 				{Name: "popn-step", Pkg: "ringbuffer", Func: "ZZ_C14_PopNStep", Params: pm("M", m), Witnesses: []string{"popn-across-wrap"}},
+				{Name: "sequences-from-New", Pkg: "ringbuffer", Func: "ZZ_C14_Seq", Params: pm("S", 3, "K", tierSel(tier, 4, 6)), Witnesses: []string{"seq-grew"}, Deadline: 30 * time.Minute},
+				{Name: "concurrent-linearizable(2x1)", Pkg: "ringbuffer", Func: "ZZ_C14_Conc", Preempt: 2, Params: pm("S", 2, "T", 2, "M", 1), Witnesses: []string{"conc-grew"}, TrustRace: true, Deadline: 30 * time.Minute},
 			}
+			if tier == "thorough" {
+				hs = append(hs,
+					HarnessSpec{Name: "concurrent-linearizable(2x2)", Pkg: "ringbuffer", Func: "ZZ_C14_Conc", Preempt: 2, Params: pm("S", 2, "T", 2, "M", 2), Witnesses: []string{"conc-grew"}, TrustRace: true, Deadline: 60 * time.Minute},
+					HarnessSpec{Name: "concurrent-linearizable(3x1)", Pkg: "ringbuffer", Func: "ZZ_C14_Conc", Preempt: 2, Params: pm("S", 2, "T", 3, "M", 1), Witnesses: []string{"conc-grew"}, TrustRace: true, Deadline: 60 * time.Minute})
+			}
+			return hs
 		},
 		Bounds: func(tier string) string {
-			return fmt.Sprintf("one-step induction from an arbitrary valid state, capacity 1..%d, items/head/len/n/pushed value symbolic 64-bit", tierSel(tier, 6, 12))
+			return fmt.Sprintf("one-step induction from an arbitrary valid state, capacity 1..%d, items/head/len/n/pushed value symbolic 64-bit; sequences of %d operations (Push of a symbolic value/Pop/PopN(0..3)/Len) from New(1..3) against a slice model; concurrent clause: %s on a ring of initial size 1..2 holding 0..2 elements, every interleaving at synchronisation granularity within 2 preemptions, oracle = a linearisation consistent with real-time order exists + no data race (happens-before detector on the repository's plain and atomic accesses)",
+				tierSel(tier, 6, 12), tierSel(tier, 4, 6), map[string]string{"quick": "2 goroutines x 1 operation", "thorough": "2 goroutines x 1 and x 2 operations, 3 goroutines x 1 operation"}[tier])
 		},
-		Outside:     []string{"capacities above the bound (the arithmetic is capacity-generic, checked only to M)", "n < 0 for PopN (make panics; the only caller passes a constant)", "element types other than int64 (the code is generic and never inspects elements)"},
-		Assumptions: append([]string{"representation invariant: 0<=head,tail<mod, 0<=len<mod, tail=(head+len) mod mod, len(items)=mod (established by New: base-case harness)"}, commonAssumptions...),
+		Outside:     []string{"capacities above the bound (the arithmetic is capacity-generic, checked only to M)", "n < 0 for PopN (make panics; the only caller passes a constant)", "element types other than int64 (the code is generic and never inspects elements)", "concurrent clause: more goroutines/operations/preemptions; memory-model effects below sequential consistency are covered only through the race detector (a reported race is not natively confirmable and is trusted)"},
+		Assumptions: append([]string{"representation invariant: 0<=head,tail<mod, 0<=len<mod, tail=(head+len) mod mod, len(items)=mod (established by New: base-case harness)", "concurrent clause: pushed values are distinct constants (elements are opaque to the ring)"}, commonAssumptions...),
 	})
 	l1props := []struct {
 		id   string
@@ -134,8 +143,10 @@ func init() {
 			Params: pm("prop", prop, "K", tierSel(tier, 4, 5), "S", 2, "L", 30), Witnesses: witnesses, Deadline: 30 * time.Minute}
 	}
 	reg(&PropSpec{
-		ID:        "C09",
-		Harnesses: func(tier string) []HarnessSpec { return []HarnessSpec{es(9, tier, "stopped-subscriber", "equal-pid-distinct-object")} },
+		ID: "C09",
+		Harnesses: func(tier string) []HarnessSpec {
+			return []HarnessSpec{es(9, tier, "stopped-subscriber", "equal-pid-distinct-object")}
+		},
 		Bounds: func(tier string) string {
 			return fmt.Sprintf("histories of %d operations (subscribe / unsubscribe with the same or an equal PID object, broadcast, send to an unregistered local PID with or without sender, send to a foreign address without remote, send to nil, a subscriber stops while subscribed) over 2 subscribers; the operation, object identity and sender choices are symbolic; 'finite' = the event queue drains within 30 handled events after each operation", tierSel(tier, 4, 5))
 		},
@@ -195,9 +206,9 @@ func init() {
 			return []HarnessSpec{inbox(2, tier), l2(2, 2, 2, 1, "restart")}
 		},
 		Bounds: func(tier string) string {
-			return fmt.Sprintf("inbox unit: %d senders x 2 messages, Start racing, preemption bound 2, receiver yields inside every Invoke; process unit: spawner (Initialized/Started on its goroutine) + 2 senders x 2 messages, one symbolic crash (restart on the worker goroutine), receiver yields twice inside every Receive; overlap = a second Receive/Invoke entered while one is active", tierSel(tier, 2, 3))
+			return fmt.Sprintf("inbox unit: %d senders x 2 messages, Start racing, preemption bound 2, receiver yields inside every Invoke; process unit: spawner (Initialized/Started on its goroutine) + 2 senders x 2 messages, one symbolic crash (restart on the worker goroutine), receiver yields twice inside every Receive; overlap = a second Receive/Invoke entered while one is active; happens-before: the receiver declares an unsynchronised write to its state at every entry and the executor's vector-clock race detector (edges: atomics, mutexes, go, channel operations) must find every pair of entries ordered, and no unordered plain/atomic conflict in the repository's own accesses", tierSel(tier, 2, 3))
 		},
-		Outside:     []string{"happens-before between consecutive Receives beyond non-overlap (the executor's race detector is not enabled for this check)", "Stop/Poison callers", "more goroutines / preemptions"},
+		Outside:     []string{"Stop/Poison callers", "more goroutines / preemptions", "a data race reported by the executor's detector cannot be confirmed by native replay and is trusted (the detector's edges are those of the sync/atomic models)"},
 		Assumptions: thrAssume("units as for C01"),
 	})
 	reg(&PropSpec{
